@@ -220,7 +220,7 @@ fn one(rng: &mut Rng) {
         // derived answers
         let sr = c.try_create_spanning_ray(&ray);
         v.require(sr.is_some() == (hits.len() == 2), "spanning.exactly_when_two_crossings", || format!("{} hits", hits.len()));
-        if let Some(s) = &sr {
+        if let (Some(s), true) = (&sr, hits.len() == 2) {
             let r = s.ray();
             let (a, b) = (r.origin, r.point_at(1.0));
             v.require((a - ray.point_at(hits[0].0)).norm() <= 1e-9 * scale && (b - ray.point_at(hits[1].0)).norm() <= 1e-9 * scale, "spanning.starts_and_ends_on_curve", || "".into());
